@@ -305,14 +305,14 @@ def gen_deps(seed: int, n: int, uncached_p: float = 0.3) -> List[Scn]:
                "propagate": rng.random() < 0.6,
                "ack": rng.choice(["default", "when_executed", "when_received"]),
                "msgs": _msgs(rng, M, ["valid"], ["ta", "ta", "ts", "ta0"], instant_p=0.3,
-                             outcomes=["ret", "exc", "base", "nores", "falsy"], timeout_p=0.25, dup_p=0.3)}
+                             outcomes=["ret", "exc", "base", "nores", "falsy", "cerr"], timeout_p=0.25, dup_p=0.3)}
         steps: List[Any] = [["arrive", rng.randint(1, M)]]
         for _ in range(rng.randint(0, 12)):
             r = rng.random()
             if r < 0.5:
                 steps.append(["gate_any", rng.randint(0, 5)])
             elif r < 0.8:
-                steps.append(["fin_any", rng.randint(0, 3), rng.choice(["ret", "exc", "base", "nores"])])
+                steps.append(["fin_any", rng.randint(0, 3), rng.choice(["ret", "exc", "base", "nores", "cerr"])])
             elif r < 0.9:
                 steps.append(["arrive", 1])
             else:
@@ -332,7 +332,7 @@ def gen_deps_enum() -> Iterator[Scn]:
         for styles in itertools.product(tstyles, repeat=len(shape)):
             if len(shape) == 3 and len(set(styles)) == 1 and styles[0] != "gen":
                 continue
-            for oc, prop, failpos in itertools.product(["ret", "exc", "timeout"], [True, False], [0] + [s[0] for s in shape]):
+            for oc, prop, failpos in itertools.product(["ret", "exc", "timeout", "cerr"], [True, False], [0] + [s[0] for s in shape]):
                 if failpos and oc != "ret":
                     continue
                 deps = [{"id": i, "style": st, "parent": p, "cached": True, "suspend": False, "fail": i == failpos}
